@@ -243,10 +243,16 @@ func mainErr(args []string) error {
 	case "bug":
 		return commandBug(args)
 	case "build", "test", "run":
+		// A GARBLE_SHARED we inherited belongs to a parent garble process,
+		// such as a "garble test" running a test which calls garble itself.
+		inheritedShared := os.Getenv("GARBLE_SHARED")
 		cmd, err := toolexecCmd(command, args)
 		defer func() {
-			if err := os.RemoveAll(os.Getenv("GARBLE_SHARED")); err != nil {
-				fmt.Fprintf(os.Stderr, "could not clean up GARBLE_SHARED: %v\n", err)
+			// Only remove the shared directory if toolexecCmd got to create it.
+			if dir := os.Getenv("GARBLE_SHARED"); dir != "" && dir != inheritedShared {
+				if err := os.RemoveAll(dir); err != nil {
+					fmt.Fprintf(os.Stderr, "could not clean up GARBLE_SHARED: %v\n", err)
+				}
 			}
 			// skip the trim if we didn't even start a build
 			if sharedCache != nil && sharedCache.CacheDir != "" {
